@@ -284,6 +284,10 @@ def check_case(ctx, case, max_runs):
     for script, out, r in runs:
         c2 = dict(case)
         c2["script"] = script
+        if getattr(r, "divergence", None):
+            ctx.fail(f"{cfg['rule']}: asked again in the same process, the count does not meet the random decisions it met before "
+                     "(a decision that was drawn the first time is not drawn again)", c2, r.divergence)
+            break
         if not out.ok:
             ctx.count("constructor_raised_skipped")
             ctx.case({"cfg": cfg, "profile": spec, "script": script})
